@@ -154,11 +154,16 @@ func runCurry(sc curryScenario) (o outcome) {
 			for i, a := range args {
 				ints[i], _ = a.(int)
 			}
+			// a step function may look at what has been computed so far (a running total does)
+			_, _ = c.Result(), c.IsDone()
 			return body(c.MarkDone, ints)
 		})
 		api = curryIface{c}
 	} else {
-		c := fpgo.CurryNewGenerics(func(c *fpgo.CurryDef[int, int], args ...int) int { return body(c.MarkDone, args) })
+		c := fpgo.CurryNewGenerics(func(c *fpgo.CurryDef[int, int], args ...int) int {
+			_, _ = c.Result(), c.IsDone()
+			return body(c.MarkDone, args)
+		})
 		api = curryInt{c}
 	}
 
@@ -209,7 +214,20 @@ func runCurry(sc curryScenario) (o outcome) {
 		}()
 	}
 	close(start)
-	wg.Wait()
+	{
+		// the Calls run the step function and nothing else: if they do not come back, the CurryDef has wedged itself
+		callsBack := make(chan struct{})
+		go func() { wg.Wait(); close(callsBack) }()
+		select {
+		case <-callsBack:
+		case <-time.After(2 * vlib.StallBudget()):
+			if verdict, dump := vlib.ClassifyStall([]string{"c20.runCurry"}); verdict == "blocked" {
+				fail("deadlock", "%d of the Calls have returned, the others (and with them the CurryDef) are blocked for good; the step function reads Result()/IsDone() and otherwise only counts:\n%s", atomic.LoadInt64(&completed), dump)
+				return
+			}
+			<-callsBack
+		}
+	}
 	close(allDone)
 	markWG.Wait()
 
